@@ -8,6 +8,7 @@
 -/
 import AcnProofs.Lemmas.SortedGreedy
 import AcnProofs.Lemmas.SortedRR
+import AcnProofs.Lemmas.SortedRRTerm
 import AcnProofs.Lemmas.SortedOpt
 import AcnProofs.Lemmas.FeasConvex
 import AcnModel.Gen.Consts
@@ -24,23 +25,47 @@ variable {K : Type} [Field K] [LinearOrder K] [IsStrictOrderedRing K]
 theorem gen_eps : (0 : Rat) < Acn.Gen.greedyEps ∧ (0 : Rat) < Acn.Gen.rrIncDefault := by
   decide +kernel
 
-/- FULL statement `sorted_by_key`: for each of the five keys the queue is the permutation of the
-   input that is ordered by the key (ascending for fcfs/edf/llf, descending for lcfs/lrpt) AND
-   sessions with equal keys keep their input order (stability, also under `reverse=True`).
-   Proved below: permutation + ordered.  Stability is exercised by the correspondence (tied
-   arrival/departure keys are generated on purpose) but not proved. -/
-theorem sorted_by_key_partial (kind : SortKind) (infra : Infra K) (period : K) (time : Int)
+/-- two sessions have the same sort key (neither is strictly before the other) -/
+def sameKey (kind : SortKind) (infra : Infra K) (period : K) (time : Int) (a b : Session K) : Bool :=
+  !sortLt kind infra period time a b && !sortLt kind infra period time b a
+
+/-- `sorted_by_key` (full): for each of the five keys the queue is (i) a permutation of the input,
+    (ii) ordered by the key — ascending for fcfs / edf / llf, descending for lcfs / lrpt, see the
+    `example` below — and (iii) STABLE: the sessions sharing the key of any session `a` appear in
+    their input order, also for the two reverse orders (Python's `reverse=True` keeps stability,
+    and that is what the model implements).  (i)–(iii) determine the output uniquely. -/
+theorem sorted_by_key (kind : SortKind) (infra : Infra K) (period : K) (time : Int)
     (l : List (Session K)) :
     (sortSessions kind infra period time l).Perm l ∧
     (sortSessions kind infra period time l).Pairwise
-      (fun a b => sortLt kind infra period time b a = false) := by
-  refine ⟨sortBy_perm _ l, sortBy_pairwise _ ?_ ?_ l⟩
+      (fun a b => sortLt kind infra period time b a = false) ∧
+    ∀ a, (sortSessions kind infra period time l).filter (sameKey kind infra period time a) =
+      l.filter (sameKey kind infra period time a) := by
+  refine ⟨sortBy_perm _ l, sortBy_pairwise _ ?_ ?_ l, fun a => sortBy_filter _ _ ?_ l⟩
   · intro a b c h1 h2
     cases kind <;> simp only [sortLt, decide_eq_false_iff_not, not_lt] at h1 h2 ⊢ <;>
       exact le_trans (by assumption) (by assumption)
   · intro a b h
     cases kind <;> simp only [sortLt, decide_eq_true_eq, decide_eq_false_iff_not, not_lt] at h ⊢ <;>
       exact le_of_lt h
+  · intro x y hx hy
+    cases kind <;>
+      simp only [sameKey, sortLt, Bool.and_eq_true, Bool.not_eq_true', decide_eq_false_iff_not,
+        not_lt] at hx hy ⊢ <;>
+      first
+        | omega
+        | exact le_trans hx.1 hy.2
+        | exact le_trans hy.1 hx.2
+        | exact le_trans hx.2 hy.1
+        | exact le_trans hy.2 hx.1
+
+/-- a concrete instance with a tied key: last-come-first-served on arrivals 1, 2, 1 (stations 0, 1, 2)
+    puts the late arrival first and keeps the two tied sessions in their input order -/
+example :
+    ((sortSessions .lcfs (⟨[], [], [], [], [], []⟩ : Infra ℚ) 5 3
+      [⟨"a", "x", 0, 1, 9, 9, 10, 0, 0, 32⟩, ⟨"b", "y", 1, 2, 9, 9, 10, 0, 0, 32⟩,
+       ⟨"c", "z", 2, 1, 9, 9, 10, 0, 0, 32⟩]).map (·.idx)) = [1, 0, 2] := by
+  decide +kernel
 
 /-- what `sortLt … b a = false` means for each key: the claimed order -/
 example (infra : Infra K) (period : K) (time : Int) (a b : Session K) :
@@ -124,6 +149,36 @@ theorem feasible_set_is_interval (M : List (List K)) (lims c s : List K) (vt rt 
   intro x y z hxy hyz hx hz
   exact Acn.Feas.algFeasible_interval M lims c s vt rt sched i x z y hxy hyz hx hz
 
+/-- `bisection_within_eps` for the REAL feasibility predicate (`algFeasible`: any constraint
+    matrix incl. mixed signs, any limits / phasors / tolerances), with no convexity hypothesis left:
+    if the current schedule is feasible and holds `lb` at station `i`, `ub ≥ lb` is infeasible,
+    `eps > 0` and `ub − lb ≤ eps·2^fuel`, then `max_feasible_rate` returns a feasible `r ∈ [lb, ub]`
+    and every feasible value `x ≥ lb` of that coordinate is `< r + eps`.  (What is true of the
+    feasible set: it is an interval; being down-closed from `lb` needs feasibility AT `lb`, which the
+    loop invariant of C07 supplies.) -/
+theorem bisection_within_eps_alg (M : List (List K)) (lims c s : List K) (vt rt : K)
+    (fuel : Nat) (i : Nat) (ub : K) (sched : List K) (eps lb : K) (heps : 0 < eps)
+    (h0 : Acn.Feas.algFeasible M lims c s vt rt sched = true) (hlb : sched.set i lb = sched)
+    (hle : lb ≤ ub) (hub : Acn.Feas.algFeasible M lims c s vt rt (sched.set i ub) = false)
+    (hfuel : ub - lb ≤ eps * 2 ^ fuel) :
+    ∃ r, maxFeasibleRate (Acn.Feas.algFeasible M lims c s vt rt) fuel i ub sched eps lb = .ok r ∧
+      Acn.Feas.algFeasible M lims c s vt rt (sched.set i r) = true ∧ lb ≤ r ∧ r ≤ ub ∧
+      ∀ x, lb ≤ x → Acn.Feas.algFeasible M lims c s vt rt (sched.set i x) = true → x < r + eps :=
+  bisection_within_eps _ fuel i ub sched eps lb heps
+    (feasible_set_is_interval M lims c s vt rt sched i) h0 hlb hle hub hfuel
+
+/-- the hypotheses of `bisection_within_eps_alg` are satisfiable on a mixed-sign row
+    `|x₀ − x₁| ≤ 10` (zero tolerances, phase 0): `[0, 5]` is feasible, raising station 0 to 32 is not,
+    and the run returns a value within `eps` below the true maximum 15 -/
+example :
+    Acn.Feas.algFeasible [[1, -1]] [10] [1, 1] [0, 0] 0 0 ([0, 5] : List ℚ) = true ∧
+    Acn.Feas.algFeasible [[1, -1]] [10] [1, 1] [0, 0] 0 0 (([0, 5] : List ℚ).set 0 32) = false ∧
+    (match maxFeasibleRate (Acn.Feas.algFeasible [[1, -1]] [10] [1, 1] [0, 0] 0 0) 12 0 32 ([0, 5] : List ℚ)
+        (1 / 100) 0 with
+     | .ok r => decide (r ≤ 15) && decide (15 < r + 1 / 100)
+     | .error _ => false) = true := by
+  decide +kernel
+
 /-- the hypotheses of `bisection_within_eps` are satisfiable: one coordinate, limit 7 -/
 example :
     let feas : List ℚ → Bool := fun x => decide (x.getD 0 0 ≤ 7)
@@ -137,24 +192,42 @@ example :
   simp only [List.set_cons_zero, List.getD_cons_zero, decide_eq_true_eq] at hx hz ⊢
   exact le_trans hyz hz
 
-/- FULL statement `greedy_sequential`: for `queue = pre ++ s :: post` session `s`'s grant is
-   `greedyRate` evaluated on the schedule that holds the FINAL grants of `pre`, the lower bounds
-   of `s :: post` and 0 elsewhere.  Proved below: every session's final entry is the value
-   `greedyRate` returned for it on an intermediate schedule of the loop, and it is never
-   overwritten afterwards (distinct stations); which intermediate schedule it is, is validated by
-   the correspondence and by the C08 oracle (sequential recomputation), not proved. -/
-theorem greedy_sequential_partial (feas : List K → Bool) (fuel : Nat) (eps : K) (infra : Infra K)
-    (period : K) (queue : List (Session K)) (sch : List K)
-    (hnd : (queue.map (·.idx)).Nodup) (hidx : ∀ s ∈ queue, s.idx < infra.ids.length)
-    (h : sortingAlgorithm feas fuel eps infra period queue = .ok sch) :
-    ∀ s ∈ queue, ∃ cur r, greedyRate feas fuel eps infra period cur s = .ok r ∧ sch[s.idx]? = some r := by
-  intro s hs
+/-- `greedy_sequential` (full): for `queue = pre ++ s :: post` the grant of `s` — the entry of the
+    result at its station — is `greedyRate` evaluated on the schedule `cur` in which every session
+    of `pre` already holds its FINAL grant, `s` and every session of `post` hold their lower
+    bounds, and every other station holds 0.  (These clauses fix `cur` pointwise.) -/
+theorem greedy_sequential (feas : List K → Bool) (fuel : Nat) (eps : K) (infra : Infra K)
+    (period : K) (pre : List (Session K)) (s : Session K) (post : List (Session K)) (sch : List K)
+    (hnd : ((pre ++ s :: post).map (·.idx)).Nodup)
+    (hidx : ∀ t ∈ pre ++ s :: post, t.idx < infra.ids.length)
+    (h : sortingAlgorithm feas fuel eps infra period (pre ++ s :: post) = .ok sch) :
+    ∃ cur r, greedyRate feas fuel eps infra period cur s = .ok r ∧ sch[s.idx]? = some r ∧
+      cur.length = infra.ids.length ∧
+      (∀ t ∈ pre, cur[t.idx]? = sch[t.idx]?) ∧
+      (∀ t ∈ s :: post, cur[t.idx]? = some (lbOf t)) ∧
+      (∀ j, j < infra.ids.length → (∀ t ∈ pre ++ s :: post, t.idx ≠ j) → cur[j]? = some 0) := by
   unfold sortingAlgorithm at h
   simp only at h
   split at h
   · cases h
-  · obtain ⟨_, _, hin⟩ := greedyLoop_values feas fuel eps infra period queue _ sch hnd h
-    exact hin s hs (by unfold initSchedule; rw [fold_lb_length]; simp; exact hidx s hs)
+  · have hlen : (initSchedule infra.ids.length (pre ++ s :: post)).length = infra.ids.length := by
+      unfold initSchedule; rw [fold_lb_length]; simp
+    obtain ⟨cur, r, h1, h2, h3, h4, h5⟩ := greedyLoop_sequential feas fuel eps infra period s post pre
+      _ sch hnd (by intro t ht; rw [hlen]; exact hidx t ht) h
+    refine ⟨cur, r, h1, h2, by rw [h3, hlen], h4, ?_, ?_⟩
+    · intro t ht
+      have htq : t ∈ pre ++ s :: post := List.mem_append_right _ ht
+      have hnot : ∀ u ∈ pre, u.idx ≠ t.idx := by
+        intro u hu heq
+        rw [List.map_append, List.nodup_append] at hnd
+        exact hnd.2.2 u.idx (List.mem_map.mpr ⟨u, hu, rfl⟩) t.idx (List.mem_map.mpr ⟨t, ht, rfl⟩) heq
+      rw [h5 t.idx hnot]
+      exact getElem?_of_set_noop _ _ _ (initSchedule_lb _ _ hnd t htq) (by rw [hlen]; exact hidx t htq)
+    · intro j hj hne
+      rw [h5 j (fun t ht => hne t (List.mem_append_left _ ht))]
+      unfold initSchedule
+      rw [fold_lb_other _ _ j hne]
+      simp [hj]
 
 /-- `rr_stop_reason`: a session leaves the deque only when it sits at its last level or its next
     level failed the feasibility check for the schedule at that moment -/
@@ -185,9 +258,30 @@ theorem rr_continues (feas : List K → Bool) (levels : List (List K)) (st : RRS
   rw [hq]
   simp only [hk, hf, if_true, and_self]
 
-/- `rr_terminates` (the loop empties the deque within `rrMeasure` = Σ remaining levels + |queue|
-   trips): NOT proved in this session; `roundRobin` runs the loop with exactly that fuel and the
-   drivers report the final deque, which the correspondence finds empty in every case. -/
+/-- the termination measure `Σ_i (len levels_i − rate_idx_i) + |queue|` drops by exactly one on
+    every trip round the loop (queued stations address `rate_idx`) -/
+theorem rr_measure_decreases (feas : List K → Bool) (levels : List (List K)) (st : RRState K)
+    (hne : st.queue ≠ []) (h : QueueIdxOk st) :
+    rrMeasure levels (rrStep feas levels st) + 1 = rrMeasure levels st :=
+  rrStep_measure feas levels st hne h
+
+/-- `rr_terminates`: `round_robin` (the loop run with `rrMeasure` fuel) ends with an EMPTY deque,
+    for any feasibility predicate and any level lists: the `while len(queue) > 0` loop terminates
+    after at most Σ levels + |queue| trips. -/
+theorem rr_terminates (feas : List K → Bool) (levelsOf : Session K → List K) (infra : Infra K)
+    (queue : List (Session K)) (st : RRState K)
+    (hidx : ∀ s ∈ queue, s.idx < infra.ids.length)
+    (h : roundRobin feas levelsOf infra queue = .ok st) : st.queue = [] := by
+  unfold roundRobin at h
+  simp only at h
+  split at h
+  · cases h
+  · injection h with h
+    rw [← h]
+    apply rrLoop_terminates feas _ _ _ _ (le_refl _)
+    intro s hs
+    show s.idx < (List.replicate infra.ids.length 0).length
+    rw [List.length_replicate]; exact hidx s hs
 
 /-- `uncontrolled_spec`: the uncontrolled baseline only ever writes `[max_pilot(station)]` under
     the station id of an active session -/
